@@ -289,9 +289,9 @@ class NestedExtensionArray(ExtensionArray):
             key = unpack_tuple_and_ellipses(key)
 
         if not isinstance(key, np.ndarray):
-            np_mask = np.zeros(len(self), dtype=np.bool_)
-            np_mask[key] = True
-            key = np_mask
+            # Convert an integer or a slice to positions, keeping their order: a slice with
+            # a negative step consumes the values from the end
+            key = np.atleast_1d(np.arange(len(self))[key])
 
         if len(key) == 0:
             return
